@@ -338,6 +338,31 @@ def may_overlap(p, ptype, m, mtype):
     return ptype.get("s") == mtype.get("s")
 
 
+def read_paths(r):
+    """[(access path, type)] of the memory that evaluating expression r reads: the outermost lvalues only (the
+    `users[i]` inside `users[i].seed` is an address computation, not a read), plus pointers that are dereferenced.
+    None when some read has no access path."""
+    out = []
+    bases = set()
+    for y in walk(r):
+        k = y.get("k")
+        if (k == "Mem" and not y.get("arrow")) or k == "Sub":
+            b = sk(y["a"][0])
+            if b is not None and (b.get("k") in ("Mem", "Sub")) and not (k == "Sub" and (b.get("t") or {}).get("k") == "ptr"):
+                bases.add(id(b))
+    for y in walk(r):
+        k = y.get("k")
+        if k in ("Mem", "Sub") or (k == "Un" and y["op"] == "*"):
+            if id(y) in bases:
+                continue
+            yp = apath(y)
+            if yp is None:
+                return None
+            out.append((yp, y.get("t")))
+    return out
+
+
+
 # ------------------------------------------------------------------- containers
 
 class Block:
@@ -413,9 +438,191 @@ class Func:
         except Exception:        # normalisation is an optimisation of precision, never a requirement
             self.aliases = {}
         try:
+            self._normalise_walkers()
+        except Exception:
+            pass
+        try:
             self._normalise_copies()
         except Exception:
             pass
+
+    # ------------------------------------------------------------------ walking pointers
+    def _normalise_walkers(self):
+        """`struct tun_user *u = users; for (..; u++) { u->f .. } return u - users;` is rewritten to index form:
+        a synthetic counter u$i (0 at the single assignment `u = BASE [+ c]`, moved wherever u is moved by ++, --,
+        += c, -= c), `u->f` -> `BASE[u$i].f`, `*u` -> `BASE[u$i]`, `u[k]` -> `BASE[u$i + k]`, `u - BASE` -> `u$i`,
+        `u < BASE + N` -> `u$i < N`, any other use -> `&BASE[u$i]`.  Only for a local pointer that is not a variable of
+        the reviewed tree, whose address is never taken, with exactly one plain assignment, whose BASE is a global or
+        a parameter that the function never assigns."""
+        base = baseline_locals().get(self.name)
+        if base is None and self.name in baseline_locals().get("*functions*", ()):
+            return
+        cand = {}
+        for l in self.locals:
+            nm = l["ref"]["name"]
+            if l["t"].get("k") != "ptr" or (base is not None and nm in base) or (l["t"].get("to") or {}).get("k") in ("ptr", None):
+                continue
+            if (l["t"].get("to") or {}).get("k") == "void":
+                continue
+            cand[l["ref"]["id"]] = {"name": nm, "t": l["t"], "defs": [], "moves": 0, "bad": False}
+        if not cand:
+            return
+        assigned = set()        # decl ids written anywhere (for the BASE check)
+        for b in self.blocks.values():
+            for i, e in enumerate(b.elems):
+                for x in self.own_nodes(e):
+                    k = x.get("k")
+                    if k == "Decl":
+                        for d in x["decls"]:
+                            if d.get("init") is not None:
+                                assigned.add(d["ref"]["id"])
+                                if d["ref"]["id"] in cand:
+                                    cand[d["ref"]["id"]]["defs"].append(d["init"])
+                    elif k == "Bin" and x["op"] in ASSIGN_OPS:
+                        t = sk(x["a"][0])
+                        if t.get("k") == "Ref":
+                            assigned.add(t["ref"]["id"])
+                            if t["ref"]["id"] in cand:
+                                c = cand[t["ref"]["id"]]
+                                if x["op"] == "=":
+                                    c["defs"].append(x["a"][1])
+                                elif x["op"] in ("+=", "-=") and cval(sk(x["a"][1])) is not None:
+                                    c["moves"] += 1
+                                else:
+                                    c["bad"] = True
+                    elif k == "Un" and x["op"] in ("post++", "post--", "pre++", "pre--", "&"):
+                        t = sk(x["a"][0])
+                        if t.get("k") == "Ref":
+                            if x["op"] != "&":
+                                assigned.add(t["ref"]["id"])
+                            if t["ref"]["id"] in cand:
+                                if x["op"] == "&":
+                                    cand[t["ref"]["id"]]["bad"] = True
+                                else:
+                                    cand[t["ref"]["id"]]["moves"] += 1
+        fresh = [-9000000]
+
+        def nid():
+            fresh[0] -= 1
+            return fresh[0]
+        IDX_T = {"bits": 64, "k": "int", "s": "long", "signed": True, "size": 8}
+        for pid, c in sorted(cand.items(), key=lambda kv: kv[1]["name"]):
+            if c["bad"] or len(c["defs"]) != 1 or c["moves"] == 0:
+                continue
+            d0 = sk(c["defs"][0])
+            off0 = 0
+            if d0.get("k") == "Bin" and d0["op"] == "+" and cval(sk(d0["a"][1])) is not None:
+                off0 = cval(sk(d0["a"][1]))
+                d0 = sk(d0["a"][0])
+            if d0.get("k") != "Ref" or d0["ref"].get("rk") not in ("global", "param"):
+                continue
+            bt = d0.get("t") or {}
+            if bt.get("k") not in ("ptr", "array"):
+                continue
+            if d0["ref"].get("rk") == "param" and d0["ref"]["id"] in assigned:
+                continue
+            if d0["ref"].get("rk") == "global" and d0["ref"]["id"] in assigned:
+                continue
+            et = c["t"].get("to") or {}
+            bet = bt.get("to") or bt.get("elem") or {}
+            if et.get("size") and bet.get("size") and et.get("size") != bet.get("size"):
+                continue        # walks the object in units of another type
+            iname = c["name"] + "$i"
+            iref = {"id": nid(), "name": iname, "rk": "local"}
+            self.locals.append({"ref": iref, "t": IDX_T, "l": None})
+            bname = d0["ref"]["name"]
+
+            def idx(loc=None):
+                return {"k": "Ref", "ref": iref, "t": IDX_T, "l": loc, "n": nid()}
+
+            def basenode(loc=None):
+                return {"k": "Ref", "ref": d0["ref"], "t": bt, "l": loc, "n": nid()}
+
+            def elem(loc, extra=None):
+                ix = idx(loc)
+                if extra is not None:
+                    ix = {"k": "Bin", "op": "+", "t": IDX_T, "l": loc, "n": nid(), "a": [ix, extra]}
+                return {"k": "Sub", "t": et, "l": loc, "n": nid(), "a": [basenode(loc), ix]}
+
+            def is_p(e):
+                e = sk(e)
+                return e is not None and e.get("k") == "Ref" and e["ref"].get("id") == pid
+
+            def base_plus(e):
+                """N when e is BASE + N (N an expression), 0-node when e is BASE itself, else None."""
+                e = sk(e)
+                if e is None:
+                    return None
+                if e.get("k") == "Ref" and e["ref"].get("id") == d0["ref"]["id"]:
+                    return {"k": "Int", "v": 0, "t": IDX_T, "n": nid()}
+                if e.get("k") == "Bin" and e["op"] == "+":
+                    l_, r_ = sk(e["a"][0]), sk(e["a"][1])
+                    if l_.get("k") == "Ref" and l_["ref"].get("id") == d0["ref"]["id"]:
+                        return e["a"][1]
+                    if r_.get("k") == "Ref" and r_["ref"].get("id") == d0["ref"]["id"]:
+                        return e["a"][0]
+                return None
+
+            def rw(n):
+                if isinstance(n, list):
+                    return [rw(v) for v in n]
+                if not isinstance(n, dict) or "k" not in n:
+                    return n
+                k = n.get("k")
+                loc = n.get("l")
+                if k == "Decl":
+                    m = dict(n)
+                    nd = []
+                    for d in n["decls"]:
+                        if d["ref"]["id"] == pid:
+                            nd.append({kk: vv for kk, vv in d.items() if kk != "init"})
+                        elif d.get("init") is not None:
+                            nd.append(dict(d, init=rw(d["init"])))
+                        else:
+                            nd.append(d)
+                    m["decls"] = nd
+                    return m
+                if k == "Bin" and n["op"] == "=" and is_p(n["a"][0]):
+                    return {"k": "Bin", "op": "=", "t": IDX_T, "l": loc, "n": n.get("n"),
+                            "a": [idx(loc), {"k": "Int", "v": off0, "t": IDX_T, "n": nid()}]}
+                if k == "Bin" and n["op"] in ("+=", "-=") and is_p(n["a"][0]):
+                    return {"k": "Bin", "op": n["op"], "t": IDX_T, "ct": IDX_T, "l": loc, "n": n.get("n"), "a": [idx(loc), rw(n["a"][1])]}
+                if k == "Un" and n["op"] in ("post++", "post--", "pre++", "pre--") and is_p(n["a"][0]):
+                    return {"k": "Un", "op": n["op"], "t": IDX_T, "l": loc, "n": n.get("n"), "a": [idx(loc)]}
+                if k == "Mem" and n.get("arrow") and is_p(n["a"][0]):
+                    m = dict(n)
+                    m["arrow"] = False
+                    m["a"] = [elem(loc)]
+                    return m
+                if k == "Un" and n["op"] == "*" and is_p(n["a"][0]):
+                    m = elem(loc)
+                    m["n"] = n.get("n", m["n"])
+                    return m
+                if k == "Sub" and is_p(n["a"][0]):
+                    m = elem(loc, rw(n["a"][1]))
+                    m["n"] = n.get("n", m["n"])
+                    return m
+                if k == "Bin" and n["op"] == "-" and is_p(n["a"][0]) and base_plus(n["a"][1]) is not None and \
+                        cval(sk(base_plus(n["a"][1]))) == 0:
+                    m = idx(loc)
+                    m["n"] = n.get("n", m["n"])
+                    return {"k": "ICast", "t": n.get("t"), "a": [m], "l": loc, "n": nid()}
+                if k == "Bin" and n["op"] in ("<", "<=", ">", ">=", "==", "!=") and (is_p(n["a"][0]) or is_p(n["a"][1])):
+                    mine, other = (0, 1) if is_p(n["a"][0]) else (1, 0)
+                    bp = base_plus(n["a"][other])
+                    if bp is not None:
+                        a = [None, None]
+                        a[mine] = idx(loc)
+                        a[other] = rw(bp)
+                        return dict(n, a=a)
+                if k == "Ref" and n["ref"].get("id") == pid:
+                    return {"k": "Un", "op": "&", "t": c["t"], "l": loc, "n": n.get("n", nid()), "a": [elem(loc)]}
+                return {kk: (rw(v) if kk in ("a", "init", "cond", "callee") else v) for kk, v in n.items()}
+            for b in self.blocks.values():
+                b.elems = [rw(e) for e in b.elems]
+                if b.term and b.term.get("cond") is not None:
+                    b.term["cond"] = rw(b.term["cond"])
+            self.aliases[c["name"]] = "&%s[%s]" % (bname, iname)
 
     # ------------------------------------------------------------------ element aliases
     def _normalise_aliases(self):
@@ -617,7 +824,7 @@ class Func:
     SAFE_CALLS = {"fprintf", "printf", "warnx", "warn", "syslog", "strlen", "strcmp", "strncmp", "strcasecmp", "memcmp",
                   "htons", "ntohs", "htonl", "ntohl", "format_addr", "tolower", "toupper", "time"}
 
-    def _normalise_copies(self):
+    def _normalise_copies(self, safe_call=None):
         """`int n = q->fromlen; ... f(n)` is rewritten to `f(q->fromlen)` when n is a local scalar with a single
         definition by a side-effect-free expression, never modified or address-taken, and on no path from the
         definition to a use is anything written that the expression reads (a variable it mentions; for expressions
@@ -702,6 +909,8 @@ class Func:
                 continue
             reads_mem = any(y.get("k") in ("Mem", "Sub") or (y.get("k") == "Un" and y["op"] == "*") or
                             (y.get("k") == "Ref" and y["ref"].get("rk") == "global") for y in walk(r))
+            # the memory r reads, as access paths (None when some read has no path: then every store counts)
+            rpaths = read_paths(r)
             # memory read through parameters only cannot be a local object of this function
             via_params = all(y["ref"].get("rk") != "local" or (y.get("t") or {}).get("k") != "ptr"
                              for y in walk(r) if y.get("k") == "Ref")
@@ -735,6 +944,9 @@ class Func:
                                     local_object(t) is not None and local_object(t) not in fv:
                                 pass            # a field or element of a local object: not what the parameters point to
                             elif reads_mem and t.get("k") != "Ref" and op != "&":
+                                wp = apath(t)
+                                if wp is not None and rpaths and all(not may_overlap(wp, t.get("t"), m_, mt_) for m_, mt_ in rpaths):
+                                    continue        # a store to memory that r does not read (another field, another object)
                                 dirty_at.add((b.id, i))
                             elif reads_mem and t.get("k") == "Ref" and t["ref"].get("rk") == "global" and op != "&":
                                 dirty_at.add((b.id, i))
@@ -743,6 +955,13 @@ class Func:
                                 if d["ref"]["id"] in fv:
                                     dirty_at.add((b.id, i))
                         if reads_mem and x.get("k") == "Call" and x.get("fn") not in self.SAFE_CALLS:
+                            if safe_call is not None and safe_call(self, x, r):
+                                continue        # writes only through its arguments, none of which reaches what r reads
+                            if x.get("fn") in ("memcpy", "memmove", "memset", "strncpy") and x.get("a") and rpaths:
+                                dp = pointee_path(x["a"][0])
+                                if dp is not None and dp[0][3] == "global" and \
+                                        all(not may_overlap(dp, None, m_, mt_) and not is_prefix(dp, m_) for m_, mt_ in rpaths):
+                                    continue    # fills a global object that r does not read
                             if x.get("fn") in ("memcpy", "memmove", "memset", "strncpy") and via_params and x.get("a") and \
                                     local_object(x["a"][0]) is not None and local_object(x["a"][0]) not in fv:
                                 continue        # fills a local object
@@ -1042,6 +1261,8 @@ EXTERN_PURE = {
     "adler32", "crc32", "compressBound", "fclose", "fopen", "signal", "alarm", "geteuid", "getuid",
     "setgid", "setuid", "getopt", "getpwnam", "setgroups", "seteuid", "setcon", "tcsetattr", "feof",
     "openlog", "sd_listen_fds", "sd_is_socket", "chroot", "chdir", "daemon", "umask", "isatty", "time",
+    "strspn", "strcspn", "strpbrk", "memchr", "strnlen", "isspace", "isupper", "islower", "isxdigit", "ispunct",
+    "labs", "atol", "strcoll",
 }
 
 
@@ -1058,6 +1279,69 @@ class Program:
         self._mod = None
         self._callers = None
         self._infer_noreturn()
+        # second round of value-copy normalisation, now that the callees' write sets are known: `seed = u->seed;
+        # login_calculate(buf, .., seed + 1)` - a callee that writes only through its arguments does not touch u->seed
+        try:
+            for u in self.units.values():
+                for f in u.funcs.values():
+                    try:
+                        f._normalise_copies(safe_call=self._call_leaves_alone)
+                    except Exception:
+                        pass
+        finally:
+            self._mod = None
+            self._callers = None
+
+    def _call_leaves_alone(self, f, call, r):
+        """The callee writes only through its pointer parameters, and what is passed for those is a local object of f
+        or a global other than the ones expression r reads."""
+        t = self.callee(call, f)
+        if t is None:
+            return False
+        ms = self.modset(t)
+        rps = read_paths(r)
+        if rps is None:
+            return False
+        rest = []
+        for d in ms:
+            if d[0] == "prel":
+                rest.append(d)
+            elif d[0] == "gpath":
+                if any(may_overlap(d[1], None, m_, mt_) for m_, mt_ in rps):
+                    return False
+            elif d[0] == "field":
+                if any(("f", d[1], d[2]) in m_ for m_, mt_ in rps):
+                    return False
+            elif d[0] == "rec":
+                if any(any(c_[0] == "f" and c_[1] == d[1] for c_ in m_) or (mt_ or {}).get("rec") == d[1] for m_, mt_ in rps):
+                    return False
+            else:
+                return False            # element of a scalar type, or unknown: could be anything
+        ms = rest
+        rglob = {y["ref"]["name"] for y in walk(r) if y.get("k") == "Ref" and y["ref"].get("rk") == "global"}
+        rloc = {y["ref"]["id"] for y in walk(r) if y.get("k") == "Ref" and y["ref"].get("rk") in ("local", "param")}
+        args = call.get("a", [])
+        for d in ms:
+            i = d[1]
+            if i >= len(args):
+                return False
+            a = sk(args[i])
+            while a is not None and a.get("k") in ("Un",) and a.get("op") == "&":
+                a = sk(a["a"][0])
+            while a is not None and a.get("k") in ("Mem", "Sub") and not a.get("arrow"):
+                a = sk(a["a"][0])
+            if a is None or a.get("k") != "Ref":
+                return False
+            rk = a["ref"].get("rk")
+            if rk == "global":
+                if a["ref"]["name"] in rglob:
+                    return False
+            elif rk == "local":
+                if (a.get("t") or {}).get("k") == "ptr" or a["ref"]["id"] in rloc:
+                    return False        # a local pointer may point anywhere
+            else:
+                return False            # a parameter of f: may point to what r reads
+        return True
 
     def _infer_noreturn(self):
         """A function none of whose paths reaches its exit (every path ends in
@@ -1248,7 +1532,10 @@ class Program:
         if w == "from2":
             idxs = range(2, len(args))
         elif w is None:
-            idxs = [i for i, a in enumerate(args) if sk(a).get("t", {}).get("k") in ("ptr", "array")]
+            # an unknown library function may write through every pointer it is handed - except through a parameter
+            # declared pointer-to-const (the argument arrives converted to the parameter's type)
+            idxs = [i for i, a in enumerate(args) if sk(a).get("t", {}).get("k") in ("ptr", "array")
+                    and not str((a.get("t") or {}).get("s", "")).startswith("const ")]
         else:
             idxs = [i for i in w if i < len(args)]
         out = []
@@ -1311,6 +1598,8 @@ class Program:
             return {("gpath", p, _tkey(t))}
         if not through_pointer(p):
             return set()        # a local object
+        if root[3] == "local" and self._points_into_locals(f, root[2]):
+            return set()        # through a local pointer that only ever points into local objects of f
         # through a local pointer: target unknown, fall back to types
         if t and t.get("k") == "record":
             return {("rec", t["rec"])}
@@ -1318,6 +1607,48 @@ class Program:
         if fl:
             return {("field", fl[-1][1], fl[-1][2])}
         return {("elem", (t or {}).get("s", "?"))}
+
+    def _points_into_locals(self, f, declid):
+        """Every value the local pointer is given is the address of (or a position inside) a local non-pointer object
+        of f, and its own address is never taken."""
+        memo = f.__dict__.setdefault("_pil", {}) if hasattr(f, "__dict__") else {}
+        if declid in memo:
+            return memo[declid]
+        memo[declid] = False
+        defs = []
+        for b, x in f.all_nodes():
+            k = x.get("k")
+            if k == "Decl":
+                for d in x["decls"]:
+                    if d["ref"]["id"] == declid and d.get("init") is not None:
+                        defs.append(d["init"])
+            elif k == "Bin" and x["op"] in ASSIGN_OPS and sk(x["a"][0]).get("k") == "Ref" and sk(x["a"][0])["ref"]["id"] == declid:
+                if x["op"] == "=":
+                    defs.append(x["a"][1])
+                elif x["op"] not in ("+=", "-="):
+                    return False
+            elif k == "Un" and x["op"] == "&" and sk(x["a"][0]).get("k") == "Ref" and sk(x["a"][0])["ref"]["id"] == declid:
+                return False
+        if not defs:
+            return False
+        for e in defs:
+            e = sk(e)
+            while e is not None:
+                k = e.get("k")
+                if k == "Bin" and e["op"] in ("+", "-"):
+                    e = sk(e["a"][0])
+                elif k == "Un" and e["op"] == "&":
+                    e = sk(e["a"][0])
+                elif k in ("Mem",) and not e.get("arrow"):
+                    e = sk(e["a"][0])
+                elif k == "Sub" and (sk(e["a"][0]).get("t") or {}).get("k") == "array":
+                    e = sk(e["a"][0])
+                else:
+                    break
+            if e is None or e.get("k") != "Ref" or e["ref"].get("rk") != "local" or (e.get("t") or {}).get("k") == "ptr":
+                return False
+        memo[declid] = True
+        return True
 
     def _compute_mods(self):
         fl = list(self.funcs())
@@ -1330,7 +1661,7 @@ class Program:
             for f in fl:
                 cur = mod[id(f)]
                 for c, t in edges[id(f)]:
-                    for d in mod[id(t)]:
+                    for d in list(mod[id(t)]):
                         if d[0] == "prel":
                             nd = self._translate_prel(f, c, d)
                         else:
